@@ -263,97 +263,129 @@ ATOMS = os.path.join(os.path.dirname(OUT), "Atoms.lean")
 N, B = "Nat", "Bool"
 
 
+FAILED_ATOMS = []
+
+
+def committed_def(name):
+    """the text of `def <name> …` in the committed Generated/Atoms.lean (None when there is none)"""
+    import subprocess
+    verif = os.path.dirname(os.path.dirname(os.path.abspath(__file__)))
+    try:
+        p = subprocess.run(["git", "-C", verif, "show", "HEAD:" + os.path.relpath(ATOMS, verif)], capture_output=True, timeout=30)
+        m = re.search(r"^def " + re.escape(name) + r" .*?(?=\n\n|\Z)", p.stdout.decode("utf-8"), re.S | re.M)
+        return m.group(0) if m else None
+    except Exception:                               # noqa
+        return None
+
+
 def atoms_text():
     """The arithmetic and the branch conditions ("atoms") of the zoom tilers, the coverage sweeps, the section cut and
     the variable-step and fixed-step decoders, each translated from the expression found in the Rust source. Raises on any
     reshaping the patterns do not recognise (=> extraction failure, previous snapshot stays)."""
     import rs2lean as R
     out = []
+    del FAILED_ATOMS[:]
 
-    def emit(name, params, ret, e):
-        fv = R.free_vars(e)
-        names = [p for p, _ in params]
-        if not fv <= set(names):
-            raise R.Unsupported(f"{name}: free variables {sorted(fv - set(names))} are not parameters")
-        out.append(R.typed_def(name, params, ret, e))
+    def emit(name, params, ret, thunk):
+        """one regenerated expression; when the source no longer has the shape its pattern looks for, THIS definition keeps its
+        committed text (and is listed in the evidence) while all the others are still regenerated"""
+        try:
+            e = thunk()
+            fv = R.free_vars(e)
+            names = [p for p, _ in params]
+            if not fv <= set(names):
+                raise R.Unsupported(f"{name}: free variables {sorted(fv - set(names))} are not parameters")
+            out.append(R.typed_def(name, params, ret, e))
+        except Exception:                           # noqa
+            old = committed_def(name)
+            if old is None:
+                raise
+            FAILED_ATOMS.append(name)
+            out.append(old)
+
+    def region(*a, **k):
+        try:
+            return R.fn_region(*a, **k)
+        except Exception:                           # noqa
+            return None
 
     # --- bigWig zoom tiler: process_val_zoom in bigwigwrite.rs -------------------------------------------------------
-    b = R.fn_region(read("bigtools/src/bbi/bigwigwrite.rs"), "process_val_zoom")
-    emit("wz_done", [("add_start", N), ("current_val_end", N)], B, R.cond_over(b, {"add_start", "current_val_end"}))
-    emit("wz_next_end", [("zoom2_start", N), ("zoom_item_size", N)], N, R.let_expr(b, "next_end"))
-    emit("wz_add_end", [("next_end", N), ("current_val_end", N)], N, R.let_expr(b, "add_end"))
-    emit("wz_update", [("add_end", N), ("add_start", N)], B, R.cond_over(b, {"add_end", "add_start"}))
-    emit("wz_added", [("add_end", N), ("add_start", N)], N, R.let_expr(b, "added_bases"))
-    emit("wz_close", [("add_end", N), ("next_end", N)], B, R.cond_over(b, {"add_end", "next_end"}))
-    emit("wz_next_start", [("add_end", N), ("current_val_start", N)], N, R.assign_expr(b, "add_start"))
+    b = region(read("bigtools/src/bbi/bigwigwrite.rs"), "process_val_zoom")
+    emit("wz_done", [("add_start", N), ("current_val_end", N)], B, lambda: (R.cond_over(b, {"add_start", "current_val_end"})))
+    emit("wz_next_end", [("zoom2_start", N), ("zoom_item_size", N)], N, lambda: (R.let_expr(b, "next_end")))
+    emit("wz_add_end", [("next_end", N), ("current_val_end", N)], N, lambda: (R.let_expr(b, "add_end")))
+    emit("wz_update", [("add_end", N), ("add_start", N)], B, lambda: (R.cond_over(b, {"add_end", "add_start"})))
+    emit("wz_added", [("add_end", N), ("add_start", N)], N, lambda: (R.let_expr(b, "added_bases")))
+    emit("wz_close", [("add_end", N), ("next_end", N)], B, lambda: (R.cond_over(b, {"add_end", "next_end"})))
+    emit("wz_next_start", [("add_end", N), ("current_val_start", N)], N, lambda: (R.assign_expr(b, "add_start")))
     fl = {"add_start", "current_val_end", "next_val_is_none", "options_items_per_slot", "zoom_item_live_info_is_none",
           "zoom_item_records_is_empty", "zoom_item_records_len"}
     emit("wz_flush", [("add_start", N), ("current_val_end", N), ("zoom_item_live_info_is_none", B), ("next_val_is_none", B),
                       ("zoom_item_records_is_empty", B), ("zoom_item_records_len", N), ("options_items_per_slot", N)], B,
-         R.cond_over(b, fl))
+         lambda: (R.cond_over(b, fl)))
     # --- bigBed zoom path: process_val_zoom in bigbedwrite.rs (sweep, then the tiler over the flushed pieces) ----------
-    b = R.fn_region(read("bigtools/src/bbi/bigbedwrite.rs"), "process_val_zoom")
-    emit("bzs_split", [("item_end", N), ("o_end", N)], B, R.cond_over(b, {"item_end", "o_end"}, 0))
-    emit("bzs_tail", [("o_end", N), ("item_end", N)], B, R.cond_over(b, {"item_end", "o_end"}, 1))
-    emit("bzs_more", [("f_start", N), ("next_start", N)], B, R.closure_body(b, "f", {"f_start", "next_start"}))
-    emit("bzs_whole", [("removed_end", N), ("next_start", N)], B, R.cond_over(b, {"removed_end", "next_start"}))
-    emit("bz_done", [("add_start", N), ("removed_end", N)], B, R.cond_over(b, {"add_start", "removed_end"}))
-    emit("bz_next_end", [("zoom2_start", N), ("zoom_item_size", N)], N, R.let_expr(b, "next_end"))
-    emit("bz_add_end", [("next_end", N), ("removed_end", N)], N, R.let_expr(b, "add_end"))
-    emit("bz_update", [("add_end", N), ("add_start", N)], B, R.cond_over(b, {"add_end", "add_start"}))
-    emit("bz_added", [("add_end", N), ("add_start", N)], N, R.let_expr(b, "added_bases"))
-    emit("bz_close", [("add_end", N), ("next_end", N)], B, R.cond_over(b, {"add_end", "next_end"}))
-    emit("bz_next_start", [("add_end", N), ("removed_start", N)], N, R.assign_expr(b, "add_start"))
+    b = region(read("bigtools/src/bbi/bigbedwrite.rs"), "process_val_zoom")
+    emit("bzs_split", [("item_end", N), ("o_end", N)], B, lambda: (R.cond_over(b, {"item_end", "o_end"}, 0)))
+    emit("bzs_tail", [("o_end", N), ("item_end", N)], B, lambda: (R.cond_over(b, {"item_end", "o_end"}, 1)))
+    emit("bzs_more", [("f_start", N), ("next_start", N)], B, lambda: (R.closure_body(b, "f", {"f_start", "next_start"})))
+    emit("bzs_whole", [("removed_end", N), ("next_start", N)], B, lambda: (R.cond_over(b, {"removed_end", "next_start"})))
+    emit("bz_done", [("add_start", N), ("removed_end", N)], B, lambda: (R.cond_over(b, {"add_start", "removed_end"})))
+    emit("bz_next_end", [("zoom2_start", N), ("zoom_item_size", N)], N, lambda: (R.let_expr(b, "next_end")))
+    emit("bz_add_end", [("next_end", N), ("removed_end", N)], N, lambda: (R.let_expr(b, "add_end")))
+    emit("bz_update", [("add_end", N), ("add_start", N)], B, lambda: (R.cond_over(b, {"add_end", "add_start"})))
+    emit("bz_added", [("add_end", N), ("add_start", N)], N, lambda: (R.let_expr(b, "added_bases")))
+    emit("bz_close", [("add_end", N), ("next_end", N)], B, lambda: (R.cond_over(b, {"add_end", "next_end"})))
+    emit("bz_next_start", [("add_end", N), ("removed_start", N)], N, lambda: (R.assign_expr(b, "add_start")))
     emit("bz_full", [("zoom_item_records_len", N), ("options_items_per_slot", N)], B,
-         R.cond_over(b, {"zoom_item_records_len", "options_items_per_slot"}))
+         lambda: (R.cond_over(b, {"zoom_item_records_len", "options_items_per_slot"})))
     # --- bigBed summary sweep and section cut: process_val in bigbedwrite.rs -------------------------------------------
-    b = R.fn_region(read("bigtools/src/bbi/bigbedwrite.rs"), "process_val", after="let add_interval_to_summary")
-    emit("bs_split", [("item_end", N), ("o_end", N)], B, R.cond_over(b, {"item_end", "o_end"}, 0))
-    emit("bs_tail", [("o_end", N), ("item_end", N)], B, R.cond_over(b, {"item_end", "o_end"}, 1))
-    emit("bs_more", [("f_start", N), ("next_start", N)], B, R.closure_body(b, "f", {"f_start", "next_start"}))
-    emit("bs_whole", [("removed_end", N), ("next_start", N)], B, R.cond_over(b, {"removed_end", "next_start"}))
-    emit("bs_part_len", [("next_start", N), ("removed_start", N)], N, R.let_expr(b, "len"))
-    emit("bs_skip", [("len", N)], B, R.cond_over(b, {"len"}))
+    b = region(read("bigtools/src/bbi/bigbedwrite.rs"), "process_val", after="let add_interval_to_summary")
+    emit("bs_split", [("item_end", N), ("o_end", N)], B, lambda: (R.cond_over(b, {"item_end", "o_end"}, 0)))
+    emit("bs_tail", [("o_end", N), ("item_end", N)], B, lambda: (R.cond_over(b, {"item_end", "o_end"}, 1)))
+    emit("bs_more", [("f_start", N), ("next_start", N)], B, lambda: (R.closure_body(b, "f", {"f_start", "next_start"})))
+    emit("bs_whole", [("removed_end", N), ("next_start", N)], B, lambda: (R.cond_over(b, {"removed_end", "next_start"})))
+    emit("bs_part_len", [("next_start", N), ("removed_start", N)], N, lambda: (R.let_expr(b, "len")))
+    emit("bs_skip", [("len", N)], B, lambda: (R.cond_over(b, {"len"})))
     cp = [("next_val_is_none", B), ("items_len", N), ("options_items_per_slot", N)]
 
     def cut_cond(body):
         # `if next_val.is_none() || items.len() >= max_items` with `let max_items = …options.items_per_slot…;` inlined
         return R.subst(R.cond_over(body, {"next_val_is_none", "items_len", "max_items"}), "max_items", R.let_expr(body, "max_items"))
-    emit("bed_cut", cp, B, cut_cond(b))
-    b = R.fn_region(read("bigtools/src/bbi/bigwigwrite.rs"), "process_val")
-    emit("wig_cut", cp, B, cut_cond(b))
-    emit("wig_len", [("current_val_end", N), ("current_val_start", N)], N, R.let_expr(b, "len"))
+    emit("bed_cut", cp, B, lambda: (cut_cond(b)))
+    b = region(read("bigtools/src/bbi/bigwigwrite.rs"), "process_val")
+    emit("wig_cut", cp, B, lambda: (cut_cond(b)))
+    emit("wig_len", [("current_val_end", N), ("current_val_start", N)], N, lambda: (R.let_expr(b, "len")))
     # --- variable-step and fixed-step sections: get_block_values in bigwigread.rs --------------------------------------
-    b = R.fn_region(read("bigtools/src/bbi/bigwigread.rs"), "get_block_values", after="2 => {")
-    emit("var_end", [("chrom_start", N), ("item_span", N), ("item_step", N)], N, R.let_expr(b, "chrom_end", 0))
-    b = R.fn_region(read("bigtools/src/bbi/bigwigread.rs"), "get_block_values", after="3 => {")
-    emit("fixed_end", [("chrom_start", N), ("item_span", N), ("item_step", N)], N, R.let_expr(b, "chrom_end", 0))
-    emit("fixed_first", [("chrom_start", N)], N, R.let_expr(b, "curr_start"))
-    emit("fixed_advance", [("item_step", N), ("item_span", N)], N, R.assign_expr(b, "curr_start", "+="))
+    b = region(read("bigtools/src/bbi/bigwigread.rs"), "get_block_values", after="2 => {")
+    emit("var_end", [("chrom_start", N), ("item_span", N), ("item_step", N)], N, lambda: (R.let_expr(b, "chrom_end", 0)))
+    b = region(read("bigtools/src/bbi/bigwigread.rs"), "get_block_values", after="3 => {")
+    emit("fixed_end", [("chrom_start", N), ("item_span", N), ("item_step", N)], N, lambda: (R.let_expr(b, "chrom_end", 0)))
+    emit("fixed_first", [("chrom_start", N)], N, lambda: (R.let_expr(b, "curr_start")))
+    emit("fixed_advance", [("item_step", N), ("item_span", N)], N, lambda: (R.assign_expr(b, "curr_start", "+=")))
     # --- FileView: read and seek arithmetic (utils/file/file_view.rs) --------------------------------------------------
     I = "Int"
     fv = read("bigtools/src/utils/file/file_view.rs")
-    b = R.fn_region(fv, "read")
-    emit("fv_read_len", [("buf_len", N), ("self_end", N), ("current", N)], N, R.let_expr(b, "to_read"))
-    b = R.fn_region(fv, "seek", after="SeekFrom::Start(start) =>")
+    b = region(fv, "read")
+    emit("fv_read_len", [("buf_len", N), ("self_end", N), ("current", N)], N, lambda: (R.let_expr(b, "to_read")))
+    b = region(fv, "seek", after="SeekFrom::Start(start) =>")
     m = re.search(r"let\s+seek_from\s*=\s*io::SeekFrom::Start\(([^;]+)\);", b)
     if not m:
         raise R.Unsupported("seek(Start): target expression not found")
-    emit("fv_start_target", [("self_start", N), ("self_end", N), ("start", N)], N, R.parse_expr(m.group(1)))
-    emit("fv_rel", [("new_pos", N), ("self_start", N)], N, R.let_expr(b, "new_pos", 0))
-    b = R.fn_region(fv, "seek", after="SeekFrom::End(end) =>")
-    emit("fv_end_offset", [("end", I)], I, R.let_expr(b, "end", 0))
-    emit("fv_end_pos", [("self_end", N), ("end", I)], I, R.let_expr(b, "new_pos", 0))
-    emit("fv_end_clamp", [("new_pos", I), ("self_start", N), ("self_end", N)], I, R.let_expr(b, "new_pos", 1))
-    b = R.fn_region(fv, "seek", after="SeekFrom::Current(offset) =>")
-    emit("fv_cur_pos", [("current", N), ("offset", I)], I, R.let_expr(b, "new_pos", 0))
-    emit("fv_cur_clamp", [("new_pos", I), ("self_start", N), ("self_end", N)], I, R.let_expr(b, "new_pos", 1))
+    emit("fv_start_target", [("self_start", N), ("self_end", N), ("start", N)], N, lambda: (R.parse_expr(m.group(1))))
+    emit("fv_rel", [("new_pos", N), ("self_start", N)], N, lambda: (R.let_expr(b, "new_pos", 0)))
+    b = region(fv, "seek", after="SeekFrom::End(end) =>")
+    emit("fv_end_offset", [("end", I)], I, lambda: (R.let_expr(b, "end", 0)))
+    emit("fv_end_pos", [("self_end", N), ("end", I)], I, lambda: (R.let_expr(b, "new_pos", 0)))
+    emit("fv_end_clamp", [("new_pos", I), ("self_start", N), ("self_end", N)], I, lambda: (R.let_expr(b, "new_pos", 1)))
+    b = region(fv, "seek", after="SeekFrom::Current(offset) =>")
+    emit("fv_cur_pos", [("current", N), ("offset", I)], I, lambda: (R.let_expr(b, "new_pos", 0)))
+    emit("fv_cur_clamp", [("new_pos", I), ("self_start", N), ("self_end", N)], I, lambda: (R.let_expr(b, "new_pos", 1)))
     # --- chromosome index: the bisection of index_chroms (bed/indexer.rs do_index) -------------------------------------
-    b = R.fn_region(read("bigtools/src/bed/indexer.rs"), "do_index")
+    b = region(read("bigtools/src/bed/indexer.rs"), "do_index")
     ixp = [("prev_tell", N), ("limit", N), ("probe", N), ("tell", N)]
-    emit("ix_stop", ixp, B, R.cond_over(b, {"limit", "prev_tell"}))
-    emit("ix_probe", ixp, N, R.let_expr(b, "probe"))
-    emit("ix_nothing_right", ixp, B, R.cond_over(b, {"tell", "limit"}))
+    emit("ix_stop", ixp, B, lambda: (R.cond_over(b, {"limit", "prev_tell"})))
+    emit("ix_probe", ixp, N, lambda: (R.let_expr(b, "probe")))
+    emit("ix_nothing_right", ixp, B, lambda: (R.cond_over(b, {"tell", "limit"})))
 
     def rec_limit(pat, what):
         m = re.search(pat, b)
@@ -361,58 +393,58 @@ def atoms_text():
             raise R.Unsupported("do_index: recursive call for " + what + " not found")
         return R.parse_expr(m.group(1))
     call = r"do_index\(\s*file,\s*chroms,\s*line,\s*%s,\s*([^,]+),\s*depth_limit - 1\s*,?\s*\)"
-    emit("ix_retry_limit", ixp, N, rec_limit(call % r"prev,\s*next", "the retry in the left part"))
-    emit("ix_left_limit", ixp, N, rec_limit(call % r"prev,\s*Some\(curr\)", "the left half"))
-    emit("ix_right_limit", ixp, N, rec_limit(call % r"curr,\s*next", "the right half"))
+    emit("ix_retry_limit", ixp, N, lambda: (rec_limit(call % r"prev,\s*next", "the retry in the left part")))
+    emit("ix_left_limit", ixp, N, lambda: (rec_limit(call % r"prev,\s*Some\(curr\)", "the left half")))
+    emit("ix_right_limit", ixp, N, lambda: (rec_limit(call % r"curr,\s*next", "the right half")))
     # --- size-based chunking: split_file_into_chunks_by_size (utils/file.rs) -------------------------------------------
-    b = R.fn_region(read("bigtools/src/utils/file.rs"), "split_file_into_chunks_by_size")
+    b = region(read("bigtools/src/utils/file.rs"), "split_file_into_chunks_by_size")
     chp = [("file_size", N), ("chunks", N), ("chunk_size", N), ("chunk_start", N), ("chunk_end", N)]
-    emit("ch_size", chp, N, R.let_expr(b, "chunk_size"))
-    emit("ch_first_end", chp, N, R.let_expr(b, "chunk_end"))
+    emit("ch_size", chp, N, lambda: (R.let_expr(b, "chunk_size")))
+    emit("ch_first_end", chp, N, lambda: (R.let_expr(b, "chunk_end")))
     m = re.search(r"\(\s*chunk_start\s*,\s*chunk_end\s*\)\s*=\s*\(\s*([^,;]+),\s*([^;]+?)\s*,?\s*\)\s*;", b)
     if not m:
         raise R.Unsupported("chunker: the (chunk_start, chunk_end) update not found")
-    emit("ch_next_start", chp, N, R.parse_expr(m.group(1)))
-    emit("ch_next_end_raw", chp, N, R.parse_expr(m.group(2)))
-    emit("ch_clamp_end", chp, N, R.assign_expr(b, "chunk_end", "=", 1))
-    emit("ch_done", chp, B, R.cond_over(b, {"chunk_start", "file_size"}))
+    emit("ch_next_start", chp, N, lambda: (R.parse_expr(m.group(1))))
+    emit("ch_next_end_raw", chp, N, lambda: (R.parse_expr(m.group(2))))
+    emit("ch_clamp_end", chp, N, lambda: (R.assign_expr(b, "chunk_end", "=", 1)))
+    emit("ch_done", chp, B, lambda: (R.cond_over(b, {"chunk_start", "file_size"})))
     # --- summary statistics: what a value / a coverage piece adds, and what the running extrema start from -------------
     F = "FConst"
     src = read("bigtools/src/bbi/bigwigwrite.rs")
-    b = R.fn_region(src, "process_val")
+    b = region(src, "process_val")
     sp = [("len", I), ("val", I), ("summary_min_val", I), ("summary_max_val", I)]
-    emit("ws_bases_add", sp, I, R.assign_expr(b, "summary.bases_covered", "+="))
-    emit("ws_sum_add", sp, I, R.assign_expr(b, "summary.sum", "+="))
-    emit("ws_sumsq_add", sp, I, R.assign_expr(b, "summary.sum_squares", "+="))
-    emit("ws_min", sp, I, R.assign_expr(b, "summary.min_val", "="))
-    emit("ws_max", sp, I, R.assign_expr(b, "summary.max_val", "="))
+    emit("ws_bases_add", sp, I, lambda: (R.assign_expr(b, "summary.bases_covered", "+=")))
+    emit("ws_sum_add", sp, I, lambda: (R.assign_expr(b, "summary.sum", "+=")))
+    emit("ws_sumsq_add", sp, I, lambda: (R.assign_expr(b, "summary.sum_squares", "+=")))
+    emit("ws_min", sp, I, lambda: (R.assign_expr(b, "summary.min_val", "=")))
+    emit("ws_max", sp, I, lambda: (R.assign_expr(b, "summary.max_val", "=")))
     creates = [m.start() for m in re.finditer(r"\bfn\s+create\s*\(", src)]
     if len(creates) < 2:
         raise R.Unsupported("bigwigwrite.rs: the two `create` functions (full / no-zooms process) not found")
     for tag, pos in (("full", creates[0]), ("nozoom", creates[1])):
         body = re.sub(r"//[^\n]*", "", R.find_fn(src[pos:], "create"))
-        emit(f"ws_min_init_{tag}", [], F, R.field_expr(body, "min_val"))
-        emit(f"ws_max_init_{tag}", [], F, R.field_expr(body, "max_val"))
-    b = R.fn_region(read("bigtools/src/bbi/bigbedwrite.rs"), "process_val", after="match summary")
+        emit(f"ws_min_init_{tag}", [], F, lambda: (R.field_expr(body, "min_val")))
+        emit(f"ws_max_init_{tag}", [], F, lambda: (R.field_expr(body, "max_val")))
+    b = region(read("bigtools/src/bbi/bigbedwrite.rs"), "process_val", after="match summary")
     bp = [("len", I), ("val", I), ("summary_min_val", I), ("summary_max_val", I)]
-    emit("bs_first_bases", bp, I, R.field_expr(b, "bases_covered"))
-    emit("bs_first_min", bp, I, R.field_expr(b, "min_val"))
-    emit("bs_first_max", bp, I, R.field_expr(b, "max_val"))
-    emit("bs_first_sum", bp, I, R.field_expr(b, "sum"))
-    emit("bs_first_sumsq", bp, I, R.field_expr(b, "sum_squares"))
-    emit("bs_bases_add", bp, I, R.assign_expr(b, "summary.bases_covered", "+="))
-    emit("bs_sum_add", bp, I, R.assign_expr(b, "summary.sum", "+="))
-    emit("bs_sumsq_add", bp, I, R.assign_expr(b, "summary.sum_squares", "+="))
-    emit("bs_min", bp, I, R.assign_expr(b, "summary.min_val", "="))
-    emit("bs_max", bp, I, R.assign_expr(b, "summary.max_val", "="))
-    b = R.fn_region(read("bigtools/src/utils/misc.rs"), "stats_for_bed_item")
+    emit("bs_first_bases", bp, I, lambda: (R.field_expr(b, "bases_covered")))
+    emit("bs_first_min", bp, I, lambda: (R.field_expr(b, "min_val")))
+    emit("bs_first_max", bp, I, lambda: (R.field_expr(b, "max_val")))
+    emit("bs_first_sum", bp, I, lambda: (R.field_expr(b, "sum")))
+    emit("bs_first_sumsq", bp, I, lambda: (R.field_expr(b, "sum_squares")))
+    emit("bs_bases_add", bp, I, lambda: (R.assign_expr(b, "summary.bases_covered", "+=")))
+    emit("bs_sum_add", bp, I, lambda: (R.assign_expr(b, "summary.sum", "+=")))
+    emit("bs_sumsq_add", bp, I, lambda: (R.assign_expr(b, "summary.sum_squares", "+=")))
+    emit("bs_min", bp, I, lambda: (R.assign_expr(b, "summary.min_val", "=")))
+    emit("bs_max", bp, I, lambda: (R.assign_expr(b, "summary.max_val", "=")))
+    b = region(read("bigtools/src/utils/misc.rs"), "stats_for_bed_item")
     tp = [("num_bases", I), ("val_value", I), ("min", I), ("max", I)]
-    emit("st_bases_add", tp, I, R.assign_expr(b, "bases", "+="))
-    emit("st_sum_add", tp, I, R.assign_expr(b, "sum", "+="))
-    emit("st_min", tp, I, R.assign_expr(b, "min", "="))
-    emit("st_max", tp, I, R.assign_expr(b, "max", "="))
-    emit("st_min_init", [], F, R.let_expr(b, "min"))
-    emit("st_max_init", [], F, R.let_expr(b, "max"))
+    emit("st_bases_add", tp, I, lambda: (R.assign_expr(b, "bases", "+=")))
+    emit("st_sum_add", tp, I, lambda: (R.assign_expr(b, "sum", "+=")))
+    emit("st_min", tp, I, lambda: (R.assign_expr(b, "min", "=")))
+    emit("st_max", tp, I, lambda: (R.assign_expr(b, "max", "=")))
+    emit("st_min_init", [], F, lambda: (R.let_expr(b, "min")))
+    emit("st_max_init", [], F, lambda: (R.let_expr(b, "max")))
     # --- automatic zoom levels: how many candidates, and the factor between them (bbiwrite.rs) -------------------------
     bw = read("bigtools/src/bbi/bbiwrite.rs")
     takes = []
@@ -426,11 +458,22 @@ def atoms_text():
     if len(takes) != 2:
         raise R.Unsupported("the two `.take(… MAX_ZOOM_LEVELS …)` of the automatic zoom levels not found")
     for tag, t in zip(("single", "two"), takes):
-        emit(f"zl_count_{tag}", [("options_max_zooms", N), ("MAX_ZOOM_LEVELS", N)], N, R.parse_expr(t))
+        emit(f"zl_count_{tag}", [("options_max_zooms", N), ("MAX_ZOOM_LEVELS", N)], N, lambda: (R.parse_expr(t)))
     m = re.search(r"successors\(Some\(options\.initial_zoom_size\),\s*\|z\|\s*z\.checked_mul\((\d+)\)\)", bw)
     if not m:
         raise R.Unsupported("the successor rule of the automatic zoom sizes not found")
-    emit("zl_factor", [], N, ("int", m.group(1)))
+    emit("zl_factor", [], N, lambda: (("int", m.group(1))))
+    # --- pybigtools exact-bin and per-base array routines: which float format every integer → float conversion goes to -------
+    # (the model computes bin borders and means in exact arithmetic; that is what `f64` gives for 32-bit coordinates and counts —
+    # FR.f64_exact_u32 — and what `f32` does not)
+    py = read("pybigtools/src/lib.rs")
+    for fn in ("to_array", "to_array_bins", "to_entry_array", "to_entry_array_bins"):
+        body = R.fn_region(py, fn)
+        kinds = re.findall(r"\bas\s+(f32|f64)\b", body)
+        if fn.endswith("_bins") and not kinds:
+            raise R.Unsupported(f"{fn}: no integer to float conversion found")
+        out.append(f"/-- `{fn}` of pybigtools: the value of `x` after each `as f32` / `as f64` in the function, in source order -/\n"
+                   f"def pyb_conv_{fn} (x : Nat) : List Nat :=\n  [" + ", ".join(f"FR.{k} x" for k in kinds) + "]")
     return ("import BigtoolsModel.FloatRound\n"
             "/-! GENERATED by tools/extract_consts.py (tools/rs2lean.py) from /repo's working tree — do not edit.\n"
             "    The arithmetic and branch conditions of the zoom tilers, the coverage sweeps, the section cut and the\n"
@@ -500,7 +543,7 @@ def main():
     if old != text:
         with open(OUT, "w", encoding="utf-8") as f:
             f.write(text)
-    return failed + (["FUNCS(overlaps, range filters, preconditions)"] if ffailed else []) + (["ATOMS(tilers, sweeps, cut, step decoders)"] if afailed else []), (old is not None and old != text) or fchanged
+    return failed + (["FUNCS(overlaps, range filters, preconditions)"] if ffailed else []) + (["ATOMS(tilers, sweeps, cut, step decoders)"] if afailed else []) + ["ATOM " + a for a in FAILED_ATOMS], (old is not None and old != text) or fchanged
 
 
 if __name__ == "__main__":
